@@ -729,6 +729,14 @@ REFINEMENT_THEOREMS = {
     "Cmp_r64_rm64": ("C02", "C02_alu_r64_rm64"), "And_r64_rm64": ("C02", "C02_alu_r64_rm64"),
     "Xor_r64_rm64": ("C02", "C02_xor_r64_rm64"),
     "Push_r64": ("C04", "C04_push_r64"), "Pop_r64": ("C04", "C04_pop_r64"),
+    "Call_rel32_64": ("C04", "C04_call_rel32"), "Retnq": ("C04", "C04_ret"),
+    "Add_r32_rm32": ("C02", "C02_alu_r32_rm32"), "Sub_r32_rm32": ("C02", "C02_alu_r32_rm32"),
+    "Cmp_r32_rm32": ("C02", "C02_alu_r32_rm32"), "And_r32_rm32": ("C02", "C02_alu_r32_rm32"),
+    "Xor_r32_rm32": ("C02", "C02_alu_r32_rm32"),
+    "Add_rm32_r32": ("C02", "C02_alu_rm32_r32"), "Sub_rm32_r32": ("C02", "C02_alu_rm32_r32"),
+    "Cmp_rm32_r32": ("C02", "C02_alu_rm32_r32"), "And_rm32_r32": ("C02", "C02_alu_rm32_r32"),
+    "Mov_r32_rm32": ("C01", "C01_mov_cmov_r32_rm32"), "Cmovae_r32_rm32": ("C01", "C01_mov_cmov_r32_rm32"),
+    "Cmove_r32_rm32": ("C01", "C01_mov_cmov_r32_rm32"), "Cmovne_r32_rm32": ("C01", "C01_mov_cmov_r32_rm32"),
 }
 
 
